@@ -29,7 +29,7 @@ macro_rules! chk { ($c:expr, $m:literal) => { assert!($c, $m) } }
 pub struct Out<const N: usize> { pub b: [u8; N], pub n: usize }
 
 /// Capacity of a pre-encoded nested item.
-pub const RAW: usize = 12;
+pub const RAW: usize = 7;
 
 // The schema / value model is made of flat scalar records on purpose: CBMC's constant propagation follows scalar
 // struct fields and index loops, but not Rust enums with payloads or slice iterators; with those the structure of the
@@ -369,7 +369,7 @@ macro_rules! err_harness {
         #[cfg(kani)]
         #[kani::proof]
         #[kani::stub(minicbor::decode::Decoder::skip, skip0)]
-        #[kani::unwind(8)]
+        #[kani::unwind(4)]
         fn $name() {
             let inp: [u8; $len] = $bytes;
             let mut d = Decoder::new(&inp[..]);
@@ -417,7 +417,7 @@ family! {
     // skipped field
     pub struct SK { #[n(0)] a: u8, #[cbor(skip)] s: u8, #[n(1)] b: bool }
     // enum: unit / tuple / struct variants, array encoding (default), variant-level tag
-    pub enum E { #[n(0)] V0, #[n(1)] V1(#[n(0)] u8, #[n(1)] Option<u8>), #[n(3)] V3 { #[n(0)] a: bool, #[n(2)] b: Option<u16> }, #[n(4)] #[cbor(tag(9))] V4(#[n(0)] bool) }
+    pub enum E { #[n(0)] V0, #[n(1)] V1(#[n(0)] u8, #[n(1)] Option<u8>), #[n(3)] V3 { #[n(0)] b: Option<u16>, #[n(2)] a: bool }, #[n(4)] #[cbor(tag(9))] V4(#[n(0)] bool) }
     // enum: map encoding at enum level, overridden per variant; enum-level tag
     #[cbor(map, tag(6))] pub enum EM { #[n(0)] V0, #[n(1)] V1 { #[n(0)] a: u8, #[n(3)] b: bool }, #[n(2)] #[cbor(array)] V2(#[n(0)] u8, #[n(1)] bool) }
     // enum with an optional field in a map-encoded variant (D4)
@@ -470,7 +470,7 @@ fn ref_e<const N: usize>(o: &mut Out<N>, v: &E, h: &Hints, fr: Fr) {
     match v {
         E::V0 => { o.enum_prefix(NOTAG, false, 0, fr); o.structure(false, NOTAG, &[], fr) }
         E::V1(x, y) => { o.enum_prefix(NOTAG, false, 1, fr); o.structure(false, NOTAG, &[cls(h[0], fu(0, *x as u64)), cls(h[1], ou(1, y))], fr) }
-        E::V3 { a, b } => { o.enum_prefix(NOTAG, false, 3, fr); o.structure(false, NOTAG, &[fb(0, *a), cls(h[0], ou(2, b))], fr) }
+        E::V3 { a, b } => { o.enum_prefix(NOTAG, false, 3, fr); o.structure(false, NOTAG, &[cls(h[0], ou(0, b)), fb(2, *a)], fr) }
         E::V4(x) => { o.enum_prefix(NOTAG, false, 4, fr); o.structure(false, 9, &[fb(0, *x)], fr) }
     }
 }
@@ -500,38 +500,38 @@ fn ref_to<const N: usize>(o: &mut Out<N>, v: &TO, h: &Hints, fr: Fr) {
 // C08 + C07, encode side: one harness per definition, all values, all presence combinations
 // ---------------------------------------------------------------------------------------------------------------------
 
-// @harness name=enc_a props=C08,C07 kind=complete
-enc_harness!(enc_a, A, 16, ref_a, |v| true, true, v.b.is_some() && v.a >= 24);
+// @harness name=enc_arr_gap props=C08,C07 kind=complete
+enc_harness!(enc_arr_gap, A, 16, ref_a, |v| true, true, v.b.is_some() && v.a >= 24);
 // @harness name=enc_ad props=C08,C07 kind=complete
 enc_harness!(enc_ad, AD, 16, ref_ad, |v| true, true, v.b < -24);
 // @harness name=enc_ap props=C08,C07 kind=complete note="declaration order, names and n/b do not influence the bytes"
 enc_harness!(enc_ap, AP, 16, ref_ap, |v| true, true, v.y < -24);
 // @harness name=enc_o1 props=C08,C07 kind=complete
 enc_harness!(enc_o1, O1, 16, ref_o1, |v| true, true, v.a.is_none() && v.c.is_none());
-// @harness name=enc_m props=C08,C07 kind=complete
-enc_harness!(enc_m, M, 16, ref_m, |v| true, true, v.b.is_some() && v.c.is_none());
+// @harness name=enc_map_gaps props=C08,C07 kind=complete
+enc_harness!(enc_map_gaps, M, 16, ref_m, |v| true, true, v.b.is_some() && v.c.is_none());
 // @harness name=enc_mp props=C08,C07 kind=complete
 enc_harness!(enc_mp, MP, 16, ref_mp, |v| true, true, v.b.is_none() && v.c.is_some());
-// @harness name=enc_t props=C08,C07 kind=complete
-enc_harness!(enc_t, T, 16, ref_t, |v| true, true, v.1.is_none());
+// @harness name=enc_tuple props=C08,C07 kind=complete
+enc_harness!(enc_tuple, T, 16, ref_t, |v| true, true, v.1.is_none());
 // @harness name=enc_u props=C08,C07 kind=complete
 enc_harness!(enc_u, U, 8, ref_u, |v| true, true, true);
-// @harness name=enc_tg props=C08,C07 kind=complete
-enc_harness!(enc_tg, TG, 16, ref_tg, |v| true, true, v.a >= 24);
-// @harness name=enc_tgm props=C08,C07 kind=complete
-enc_harness!(enc_tgm, TGM, 16, ref_tgm, |v| true, true, v.a.is_none());
+// @harness name=enc_tags_arr props=C08,C07 kind=complete
+enc_harness!(enc_tags_arr, TG, 16, ref_tg, |v| true, true, v.a >= 24);
+// @harness name=enc_tags_map props=C08,C07 kind=complete
+enc_harness!(enc_tags_map, TGM, 16, ref_tgm, |v| true, true, v.a.is_none());
 // @harness name=enc_tr props=C08,C07 kind=complete
 enc_harness!(enc_tr, TR, 8, ref_tr, |v| true, true, v.0 > 255);
 // @harness name=enc_sk props=C08,C07 kind=complete
 enc_harness!(enc_sk, SK, 16, ref_sk, |v| true, true, v.s != 0);
-// @harness name=enc_e props=C08,C07 kind=complete note="excludes the class of D4 (absent optional field of a variant)"
-enc_harness!(enc_e, E, 16, ref_e, |v| !matches!(v, E::V3 { b: None, .. } | E::V1(_, None)), true, matches!(v, E::V3 { .. }));
+// @harness name=enc_enum_arr props=C08,C07 kind=complete note="excludes the class of D4 (absent optional field of a variant)"
+enc_harness!(enc_enum_arr, E, 16, ref_e, |v| !matches!(v, E::V3 { b: None, .. } | E::V1(_, None)), true, matches!(v, E::V3 { .. }));
 // @harness name=kf_d4_enum_array_absent props=C08 kind=complete note="D4: E::V1(x, None) is written as 82 01 82 x f6 (trailing null) instead of 82 01 81 x"
 enc_harness!(kf_d4_enum_array_absent, E, 16, ref_e, |v| matches!(v, E::V3 { b: None, .. } | E::V1(_, None)), true, true);
-// @harness name=enc_em props=C08,C07 kind=complete
-enc_harness!(enc_em, EM, 16, ref_em, |v| true, true, matches!(v, EM::V2(..)));
-// @harness name=enc_eo props=C08,C07 kind=complete note="excludes the class of D4 (absent optional field of a map-encoded variant)"
-enc_harness!(enc_eo, EO, 16, ref_eo, |v| !matches!(v, EO::V0 { b: None, .. }), true, true);
+// @harness name=enc_enum_map props=C08,C07 kind=complete
+enc_harness!(enc_enum_map, EM, 16, ref_em, |v| true, true, matches!(v, EM::V2(..)));
+// @harness name=enc_enum_opt props=C08,C07 kind=complete note="excludes the class of D4 (absent optional field of a map-encoded variant)"
+enc_harness!(enc_enum_opt, EO, 16, ref_eo, |v| !matches!(v, EO::V0 { b: None, .. }), true, true);
 // @harness name=kf_d4_enum_map_absent props=C08 kind=complete note="D4: EO::V0 { a, b: None } is written with an explicit `1: null` entry"
 enc_harness!(kf_d4_enum_map_absent, EO, 16, ref_eo, |v| matches!(v, EO::V0 { b: None, .. }), true, true);
 // @harness name=enc_io props=C08,C07 kind=complete
@@ -550,10 +550,27 @@ family! {
 fn ref_m24<const N: usize>(o: &mut Out<N>, v: &M24, _h: &Hints, fr: Fr) {
     o.structure(true, NOTAG, &[fb(0, v.f0), fb(1, v.f1), fb(2, v.f2), fb(3, v.f3), fb(4, v.f4), fb(5, v.f5), fb(6, v.f6), fb(7, v.f7), fb(8, v.f8), fb(9, v.f9), fb(10, v.f10), fb(11, v.f11), fb(12, v.f12), fb(13, v.f13), fb(14, v.f14), fb(15, v.f15), fb(16, v.f16), fb(17, v.f17), fb(18, v.f18), fb(19, v.f19), fb(20, v.f20), fb(21, v.f21), ob(22, &v.f22), ob(24, &v.f24)], fr)
 }
-// @harness name=enc_m24 props=C08,C07 kind=complete note="C07 asserted outside the class of D5 (some optional field absent, < 24 entries written)"
-enc_harness!(enc_m24, M24, 56, ref_m24, |v| true, v.f22.is_some() && v.f24.is_some(), v.f22.is_none());
-// @harness name=kf_d5_m24_len props=C07 kind=complete note="D5: M24 with f22 or f24 absent: header a0+n (1 byte) is written, cbor_len counts the 2-byte header of map(24)"
-enc_harness!(kf_d5_m24_len, M24, 56, ref_m24, |v| v.f22.is_none() || v.f24.is_none(), true, true);
+/// a sink that only counts (the byte-storing `Cursor` makes the 24-field encoder too expensive for CBMC: > 500 s)
+pub struct Count(pub usize);
+impl minicbor::encode::Write for Count {
+    type Error = core::convert::Infallible;
+    fn write_all(&mut self, buf: &[u8]) -> Result<(), Self::Error> { self.0 += buf.len(); Ok(()) }
+}
+#[cfg(kani)]
+fn m24_len(all_present: bool) {
+    let v: M24 = kani::any();
+    kani::assume((v.f22.is_some() && v.f24.is_some()) == all_present);
+    let mut e = Encoder::new(Count(0));
+    let ok = v.encode(&mut e, &mut ()).is_ok();
+    chk!(ok, "encoding succeeds");
+    let n = e.into_writer().0;
+    chk!(v.cbor_len(&mut ()) == n, "C07: cbor_len == bytes written");
+    kani::cover!(n >= 48);
+}
+// @harness name=len_m24_all_present props=C07 kind=complete
+#[cfg(kani)] #[kani::proof] fn len_m24_all_present() { m24_len(true) }
+// @harness name=kf_d5_m24_len_only props=C07 kind=complete note="D5: M24 with f22 or f24 absent: header a0+n (1 byte) is written, cbor_len counts the 2-byte header of map(24)"
+#[cfg(kani)] #[kani::proof] fn kf_d5_m24_len_only() { m24_len(false) }
 
 // ---------------------------------------------------------------------------------------------------------------------
 // C09, decode side: decode(ref_encode(v)) == v, exact consumption.  One harness per (presence mask, width classes);
@@ -562,7 +579,7 @@ enc_harness!(kf_d5_m24_len, M24, 56, ref_m24, |v| v.f22.is_none() || v.f24.is_no
 
 // @harness name=dec_a_n0 props=C09 kind=complete tier=thorough
 dec_harness!(dec_a_n0, A, ref_a, PREF, h2(0, AUTO), |h| A { a: u8c(h[0]), b: None, c: kani::any() });
-// @harness name=dec_a_00 props=C09 kind=complete
+// @harness name=dec_a_00 props=C09 kind=complete tier=thorough
 dec_harness!(dec_a_00, A, ref_a, PREF, h2(0, 0), |h| A { a: u8c(h[0]), b: Some(u16c(h[1])), c: kani::any() });
 // @harness name=dec_a_01 props=C09 kind=complete tier=thorough
 dec_harness!(dec_a_01, A, ref_a, PREF, h2(0, 1), |h| A { a: u8c(h[0]), b: Some(u16c(h[1])), c: kani::any() });
@@ -570,9 +587,9 @@ dec_harness!(dec_a_01, A, ref_a, PREF, h2(0, 1), |h| A { a: u8c(h[0]), b: Some(u
 dec_harness!(dec_a_02, A, ref_a, PREF, h2(0, 2), |h| A { a: u8c(h[0]), b: Some(u16c(h[1])), c: kani::any() });
 // @harness name=dec_a_n1 props=C09 kind=complete
 dec_harness!(dec_a_n1, A, ref_a, PREF, h2(1, AUTO), |h| A { a: u8c(h[0]), b: None, c: kani::any() });
-// @harness name=dec_a_10 props=C09 kind=complete tier=thorough
+// @harness name=dec_a_10 props=C09 kind=complete
 dec_harness!(dec_a_10, A, ref_a, PREF, h2(1, 0), |h| A { a: u8c(h[0]), b: Some(u16c(h[1])), c: kani::any() });
-// @harness name=dec_a_11 props=C09 kind=complete tier=thorough
+// @harness name=dec_a_11 props=C09 kind=complete
 dec_harness!(dec_a_11, A, ref_a, PREF, h2(1, 1), |h| A { a: u8c(h[0]), b: Some(u16c(h[1])), c: kani::any() });
 // @harness name=dec_a_12 props=C09 kind=complete
 dec_harness!(dec_a_12, A, ref_a, PREF, h2(1, 2), |h| A { a: u8c(h[0]), b: Some(u16c(h[1])), c: kani::any() });
@@ -588,41 +605,25 @@ dec_harness!(dec_ap_01, AP, ref_ap, PREF, h2(0, 1), |h| AP { x: u8c(h[0]), y: i8
 dec_harness!(dec_ad_10, AD, ref_ad, PREF, h2(1, 0), |h| AD { a: u8c(h[0]), b: i8c(h[1]), c: kani::any() });
 // @harness name=dec_ap_10 props=C09 kind=complete tier=thorough
 dec_harness!(dec_ap_10, AP, ref_ap, PREF, h2(1, 0), |h| AP { x: u8c(h[0]), y: i8c(h[1]), z: kani::any() });
-// @harness name=dec_ad_11 props=C09 kind=complete tier=thorough
+// @harness name=dec_ad_11 props=C09 kind=complete
 dec_harness!(dec_ad_11, AD, ref_ad, PREF, h2(1, 1), |h| AD { a: u8c(h[0]), b: i8c(h[1]), c: kani::any() });
 // @harness name=dec_ap_11 props=C09 kind=complete
 dec_harness!(dec_ap_11, AP, ref_ap, PREF, h2(1, 1), |h| AP { x: u8c(h[0]), y: i8c(h[1]), z: kani::any() });
-// @harness name=dec_mp_0nn props=C09 kind=complete tier=thorough
+// @harness name=dec_mp_0nn props=C09 kind=complete
 dec_harness!(dec_mp_0nn, MP, ref_mp, PREF, h3(0, AUTO, AUTO), |h| MP { a: u8c(h[0]), b: None, c: None });
-// @harness name=dec_mp_0n0 props=C09 kind=complete
+// @harness name=dec_mp_0n0 props=C09 kind=complete tier=thorough
 dec_harness!(dec_mp_0n0, MP, ref_mp, PREF, h3(0, AUTO, 0), |h| MP { a: u8c(h[0]), b: None, c: Some(i8c(h[2])) });
-// @harness name=dec_mp_0n1 props=C09 kind=complete tier=thorough
-dec_harness!(dec_mp_0n1, MP, ref_mp, PREF, h3(0, AUTO, 1), |h| MP { a: u8c(h[0]), b: None, c: Some(i8c(h[2])) });
 // @harness name=dec_mp_00n props=C09 kind=complete tier=thorough
 dec_harness!(dec_mp_00n, MP, ref_mp, PREF, h3(0, 0, AUTO), |h| MP { a: u8c(h[0]), b: Some(u16c(h[1])), c: None });
-// @harness name=dec_mp_000 props=C09 kind=complete tier=thorough
-dec_harness!(dec_mp_000, MP, ref_mp, PREF, h3(0, 0, 0), |h| MP { a: u8c(h[0]), b: Some(u16c(h[1])), c: Some(i8c(h[2])) });
-// @harness name=dec_mp_001 props=C09 kind=complete tier=thorough
-dec_harness!(dec_mp_001, MP, ref_mp, PREF, h3(0, 0, 1), |h| MP { a: u8c(h[0]), b: Some(u16c(h[1])), c: Some(i8c(h[2])) });
-// @harness name=dec_mp_01n props=C09 kind=complete tier=thorough
-dec_harness!(dec_mp_01n, MP, ref_mp, PREF, h3(0, 1, AUTO), |h| MP { a: u8c(h[0]), b: Some(u16c(h[1])), c: None });
-// @harness name=dec_mp_010 props=C09 kind=complete tier=thorough
-dec_harness!(dec_mp_010, MP, ref_mp, PREF, h3(0, 1, 0), |h| MP { a: u8c(h[0]), b: Some(u16c(h[1])), c: Some(i8c(h[2])) });
-// @harness name=dec_mp_011 props=C09 kind=complete tier=thorough
-dec_harness!(dec_mp_011, MP, ref_mp, PREF, h3(0, 1, 1), |h| MP { a: u8c(h[0]), b: Some(u16c(h[1])), c: Some(i8c(h[2])) });
 // @harness name=dec_mp_02n props=C09 kind=complete tier=thorough
 dec_harness!(dec_mp_02n, MP, ref_mp, PREF, h3(0, 2, AUTO), |h| MP { a: u8c(h[0]), b: Some(u16c(h[1])), c: None });
-// @harness name=dec_mp_020 props=C09 kind=complete tier=thorough
-dec_harness!(dec_mp_020, MP, ref_mp, PREF, h3(0, 2, 0), |h| MP { a: u8c(h[0]), b: Some(u16c(h[1])), c: Some(i8c(h[2])) });
-// @harness name=dec_mp_021 props=C09 kind=complete
-dec_harness!(dec_mp_021, MP, ref_mp, PREF, h3(0, 2, 1), |h| MP { a: u8c(h[0]), b: Some(u16c(h[1])), c: Some(i8c(h[2])) });
 // @harness name=dec_mp_1nn props=C09 kind=complete
 dec_harness!(dec_mp_1nn, MP, ref_mp, PREF, h3(1, AUTO, AUTO), |h| MP { a: u8c(h[0]), b: None, c: None });
 // @harness name=dec_mp_1n0 props=C09 kind=complete tier=thorough
 dec_harness!(dec_mp_1n0, MP, ref_mp, PREF, h3(1, AUTO, 0), |h| MP { a: u8c(h[0]), b: None, c: Some(i8c(h[2])) });
 // @harness name=dec_mp_1n1 props=C09 kind=complete tier=thorough
 dec_harness!(dec_mp_1n1, MP, ref_mp, PREF, h3(1, AUTO, 1), |h| MP { a: u8c(h[0]), b: None, c: Some(i8c(h[2])) });
-// @harness name=dec_mp_10n props=C09 kind=complete tier=thorough
+// @harness name=dec_mp_10n props=C09 kind=complete
 dec_harness!(dec_mp_10n, MP, ref_mp, PREF, h3(1, 0, AUTO), |h| MP { a: u8c(h[0]), b: Some(u16c(h[1])), c: None });
 // @harness name=dec_mp_100 props=C09 kind=complete tier=thorough
 dec_harness!(dec_mp_100, MP, ref_mp, PREF, h3(1, 0, 0), |h| MP { a: u8c(h[0]), b: Some(u16c(h[1])), c: Some(i8c(h[2])) });
@@ -632,9 +633,9 @@ dec_harness!(dec_mp_101, MP, ref_mp, PREF, h3(1, 0, 1), |h| MP { a: u8c(h[0]), b
 dec_harness!(dec_mp_11n, MP, ref_mp, PREF, h3(1, 1, AUTO), |h| MP { a: u8c(h[0]), b: Some(u16c(h[1])), c: None });
 // @harness name=dec_mp_110 props=C09 kind=complete tier=thorough
 dec_harness!(dec_mp_110, MP, ref_mp, PREF, h3(1, 1, 0), |h| MP { a: u8c(h[0]), b: Some(u16c(h[1])), c: Some(i8c(h[2])) });
-// @harness name=dec_mp_111 props=C09 kind=complete tier=thorough
+// @harness name=dec_mp_111 props=C09 kind=complete
 dec_harness!(dec_mp_111, MP, ref_mp, PREF, h3(1, 1, 1), |h| MP { a: u8c(h[0]), b: Some(u16c(h[1])), c: Some(i8c(h[2])) });
-// @harness name=dec_mp_12n props=C09 kind=complete tier=thorough
+// @harness name=dec_mp_12n props=C09 kind=complete
 dec_harness!(dec_mp_12n, MP, ref_mp, PREF, h3(1, 2, AUTO), |h| MP { a: u8c(h[0]), b: Some(u16c(h[1])), c: None });
 // @harness name=dec_mp_120 props=C09 kind=complete tier=thorough
 dec_harness!(dec_mp_120, MP, ref_mp, PREF, h3(1, 2, 0), |h| MP { a: u8c(h[0]), b: Some(u16c(h[1])), c: Some(i8c(h[2])) });
@@ -648,13 +649,13 @@ dec_harness!(dec_t_00, T, ref_t, PREF, h2(0, 0), |h| T(u8c(h[0]), Some(u8c(h[1])
 dec_harness!(dec_t_01, T, ref_t, PREF, h2(0, 1), |h| T(u8c(h[0]), Some(u8c(h[1])), kani::any()));
 // @harness name=dec_t_1n props=C09 kind=complete
 dec_harness!(dec_t_1n, T, ref_t, PREF, h2(1, AUTO), |h| T(u8c(h[0]), None, kani::any()));
-// @harness name=dec_t_10 props=C09 kind=complete tier=thorough
+// @harness name=dec_t_10 props=C09 kind=complete
 dec_harness!(dec_t_10, T, ref_t, PREF, h2(1, 0), |h| T(u8c(h[0]), Some(u8c(h[1])), kani::any()));
-// @harness name=dec_t_11 props=C09 kind=complete tier=thorough
+// @harness name=dec_t_11 props=C09 kind=complete
 dec_harness!(dec_t_11, T, ref_t, PREF, h2(1, 1), |h| T(u8c(h[0]), Some(u8c(h[1])), kani::any()));
 // @harness name=dec_u props=C09 kind=complete
 dec_harness!(dec_u, U, ref_u, PREF, NOH, |h| U);
-// @harness name=dec_tg_0 props=C09 kind=complete tier=thorough
+// @harness name=dec_tg_0 props=C09 kind=complete
 dec_harness!(dec_tg_0, TG, ref_tg, PREF, h1(0), |h| TG { a: u8c(h[0]), b: kani::any() });
 // @harness name=dec_tg_1 props=C09 kind=complete
 dec_harness!(dec_tg_1, TG, ref_tg, PREF, h1(1), |h| TG { a: u8c(h[0]), b: kani::any() });
@@ -662,17 +663,17 @@ dec_harness!(dec_tg_1, TG, ref_tg, PREF, h1(1), |h| TG { a: u8c(h[0]), b: kani::
 dec_harness!(dec_tgm_n, TGM, ref_tgm, PREF, h1(AUTO), |h| TGM { a: None, b: kani::any() });
 // @harness name=dec_tgm_0 props=C09 kind=complete tier=thorough
 dec_harness!(dec_tgm_0, TGM, ref_tgm, PREF, h1(0), |h| TGM { a: Some(u8c(h[0])), b: kani::any() });
-// @harness name=dec_tgm_1 props=C09 kind=complete tier=thorough
+// @harness name=dec_tgm_1 props=C09 kind=complete
 dec_harness!(dec_tgm_1, TGM, ref_tgm, PREF, h1(1), |h| TGM { a: Some(u8c(h[0])), b: kani::any() });
-// @harness name=dec_tr_0 props=C09 kind=complete tier=thorough
+// @harness name=dec_tr_0 props=C09 kind=complete
 dec_harness!(dec_tr_0, TR, ref_tr, PREF, h1(0), |h| TR(u16c(h[0])));
-// @harness name=dec_tr_1 props=C09 kind=complete tier=thorough
+// @harness name=dec_tr_1 props=C09 kind=complete
 dec_harness!(dec_tr_1, TR, ref_tr, PREF, h1(1), |h| TR(u16c(h[0])));
 // @harness name=dec_tr_2 props=C09 kind=complete
 dec_harness!(dec_tr_2, TR, ref_tr, PREF, h1(2), |h| TR(u16c(h[0])));
 // @harness name=dec_sk_0 props=C09 kind=complete note="the skipped field takes its default"
 dec_harness!(dec_sk_0, skip0, SK => SK, 24, ref_sk, PREF, h1(0), |h| SK { a: u8c(h[0]), s: kani::any(), b: kani::any() }, |v| SK { s: 0, ..v });
-// @harness name=dec_sk_1 props=C09 kind=complete tier=thorough note="the skipped field takes its default"
+// @harness name=dec_sk_1 props=C09 kind=complete note="the skipped field takes its default"
 dec_harness!(dec_sk_1, skip0, SK => SK, 24, ref_sk, PREF, h1(1), |h| SK { a: u8c(h[0]), s: kani::any(), b: kani::any() }, |v| SK { s: 0, ..v });
 // @harness name=dec_e_v0 props=C09 kind=complete
 dec_harness!(dec_e_v0, skip1, E => E, 24, ref_e, PREF, NOH, |h| E::V0, |v| v);
@@ -682,23 +683,15 @@ dec_harness!(dec_e_v1_0n, E, ref_e, PREF, h2(0, AUTO), |h| E::V1(u8c(h[0]), None
 dec_harness!(dec_e_v1_00, E, ref_e, PREF, h2(0, 0), |h| E::V1(u8c(h[0]), Some(u8c(h[1]))));
 // @harness name=dec_e_v1_01 props=C09 kind=complete tier=thorough
 dec_harness!(dec_e_v1_01, E, ref_e, PREF, h2(0, 1), |h| E::V1(u8c(h[0]), Some(u8c(h[1]))));
-// @harness name=dec_e_v1_1n props=C09 kind=complete tier=thorough
+// @harness name=dec_e_v1_1n props=C09 kind=complete
 dec_harness!(dec_e_v1_1n, E, ref_e, PREF, h2(1, AUTO), |h| E::V1(u8c(h[0]), None));
 // @harness name=dec_e_v1_10 props=C09 kind=complete
 dec_harness!(dec_e_v1_10, E, ref_e, PREF, h2(1, 0), |h| E::V1(u8c(h[0]), Some(u8c(h[1]))));
-// @harness name=dec_e_v1_11 props=C09 kind=complete tier=thorough
+// @harness name=dec_e_v1_11 props=C09 kind=complete
 dec_harness!(dec_e_v1_11, E, ref_e, PREF, h2(1, 1), |h| E::V1(u8c(h[0]), Some(u8c(h[1]))));
-// @harness name=dec_e_v3_n props=C09 kind=complete tier=thorough
-dec_harness!(dec_e_v3_n, E, ref_e, PREF, h1(AUTO), |h| E::V3 { a: kani::any(), b: None });
-// @harness name=dec_e_v3_0 props=C09 kind=complete tier=thorough
-dec_harness!(dec_e_v3_0, E, ref_e, PREF, h1(0), |h| E::V3 { a: kani::any(), b: Some(u16c(h[0])) });
-// @harness name=dec_e_v3_1 props=C09 kind=complete tier=thorough
-dec_harness!(dec_e_v3_1, E, ref_e, PREF, h1(1), |h| E::V3 { a: kani::any(), b: Some(u16c(h[0])) });
-// @harness name=dec_e_v3_2 props=C09 kind=complete
-dec_harness!(dec_e_v3_2, E, ref_e, PREF, h1(2), |h| E::V3 { a: kani::any(), b: Some(u16c(h[0])) });
 // @harness name=dec_e_v4 props=C09 kind=complete
 dec_harness!(dec_e_v4, E, ref_e, PREF, NOH, |h| E::V4(kani::any()));
-// @harness name=dec_em_v0 props=C09 kind=complete tier=thorough
+// @harness name=dec_em_v0 props=C09 kind=complete
 dec_harness!(dec_em_v0, skip1, EM => EM, 24, ref_em, PREF, NOH, |h| EM::V0, |v| v);
 // @harness name=dec_em_v1_0 props=C09 kind=complete tier=thorough
 dec_harness!(dec_em_v1_0, EM, ref_em, PREF, h1(0), |h| EM::V1 { a: u8c(h[0]), b: kani::any() });
@@ -706,7 +699,7 @@ dec_harness!(dec_em_v1_0, EM, ref_em, PREF, h1(0), |h| EM::V1 { a: u8c(h[0]), b:
 dec_harness!(dec_em_v2_0, EM, ref_em, PREF, h1(0), |h| EM::V2(u8c(h[0]), kani::any()));
 // @harness name=dec_em_v1_1 props=C09 kind=complete
 dec_harness!(dec_em_v1_1, EM, ref_em, PREF, h1(1), |h| EM::V1 { a: u8c(h[0]), b: kani::any() });
-// @harness name=dec_em_v2_1 props=C09 kind=complete tier=thorough
+// @harness name=dec_em_v2_1 props=C09 kind=complete
 dec_harness!(dec_em_v2_1, EM, ref_em, PREF, h1(1), |h| EM::V2(u8c(h[0]), kani::any()));
 // @harness name=dec_eo_0n props=C09 kind=complete
 dec_harness!(dec_eo_0n, EO, ref_eo, PREF, h2(0, AUTO), |h| EO::V0 { a: u8c(h[0]), b: None });
@@ -714,15 +707,15 @@ dec_harness!(dec_eo_0n, EO, ref_eo, PREF, h2(0, AUTO), |h| EO::V0 { a: u8c(h[0])
 dec_harness!(dec_eo_00, EO, ref_eo, PREF, h2(0, 0), |h| EO::V0 { a: u8c(h[0]), b: Some(u8c(h[1])) });
 // @harness name=dec_eo_01 props=C09 kind=complete tier=thorough
 dec_harness!(dec_eo_01, EO, ref_eo, PREF, h2(0, 1), |h| EO::V0 { a: u8c(h[0]), b: Some(u8c(h[1])) });
-// @harness name=dec_eo_1n props=C09 kind=complete tier=thorough
+// @harness name=dec_eo_1n props=C09 kind=complete
 dec_harness!(dec_eo_1n, EO, ref_eo, PREF, h2(1, AUTO), |h| EO::V0 { a: u8c(h[0]), b: None });
-// @harness name=dec_eo_10 props=C09 kind=complete tier=thorough
+// @harness name=dec_eo_10 props=C09 kind=complete
 dec_harness!(dec_eo_10, EO, ref_eo, PREF, h2(1, 0), |h| EO::V0 { a: u8c(h[0]), b: Some(u8c(h[1])) });
-// @harness name=dec_eo_11 props=C09 kind=complete tier=thorough
+// @harness name=dec_eo_11 props=C09 kind=complete
 dec_harness!(dec_eo_11, EO, ref_eo, PREF, h2(1, 1), |h| EO::V0 { a: u8c(h[0]), b: Some(u8c(h[1])) });
-// @harness name=dec_io_i0 props=C09 kind=complete tier=thorough
+// @harness name=dec_io_i0 props=C09 kind=complete
 dec_harness!(dec_io_i0, IO, ref_io, PREF, NOH, |h| IO::I0);
-// @harness name=dec_io_i1 props=C09 kind=complete tier=thorough
+// @harness name=dec_io_i1 props=C09 kind=complete
 dec_harness!(dec_io_i1, IO, ref_io, PREF, NOH, |h| IO::I1);
 // @harness name=dec_io_i30 props=C09 kind=complete
 dec_harness!(dec_io_i30, IO, ref_io, PREF, NOH, |h| IO::I30);
@@ -732,7 +725,235 @@ dec_harness!(dec_by_0, BY, ref_by, PREF, h1(0), |h| BY { a: u8c(h[0]), b: kani::
 dec_harness!(dec_by_1, BY, ref_by, PREF, h1(1), |h| BY { a: u8c(h[0]), b: kani::any() });
 // @harness name=dec_to_n props=C09 kind=complete
 dec_harness!(dec_to_n, TO, ref_to, PREF, h1(AUTO), |h| TO { a: None, b: kani::any() });
-// @harness name=dec_to_0 props=C09 kind=complete tier=thorough
+// @harness name=dec_to_0 props=C09 kind=complete
 dec_harness!(dec_to_0, TO, ref_to, PREF, h1(0), |h| TO { a: Some(u8c(h[0])), b: kani::any() });
-// @harness name=dec_to_1 props=C09 kind=complete tier=thorough
+// @harness name=dec_to_1 props=C09 kind=complete
 dec_harness!(dec_to_1, TO, ref_to, PREF, h1(1), |h| TO { a: Some(u8c(h[0])), b: kani::any() });
+
+// ---------------------------------------------------------------------------------------------------------------------
+// C09, re-framed inputs: the same value in another well-formed framing (indefinite-length field container, heads wider
+// than preferred) decodes to the same value.  With WIDE1 every class-0 leaf becomes `18 xx`, i.e. these harnesses cover
+// the class-0 values a second time with a concrete initial byte.
+// ---------------------------------------------------------------------------------------------------------------------
+
+// @harness name=rf_a_indef_1n props=C09 kind=complete
+dec_harness!(rf_a_indef_1n, A, ref_a, INDEF, h2(1, AUTO), |h| A { a: u8c(h[0]), b: None, c: kani::any() });
+// @harness name=rf_a_indef_12 props=C09 kind=complete
+dec_harness!(rf_a_indef_12, A, ref_a, INDEF, h2(1, 2), |h| A { a: u8c(h[0]), b: Some(u16c(h[1])), c: kani::any() });
+// @harness name=rf_a_wide1_00 props=C09 kind=complete
+dec_harness!(rf_a_wide1_00, A, ref_a, WIDE1, h2(0, 0), |h| A { a: u8c(h[0]), b: Some(u16c(h[1])), c: kani::any() });
+// @harness name=rf_a_wide1_0n props=C09 kind=complete
+dec_harness!(rf_a_wide1_0n, A, ref_a, WIDE1, h2(0, AUTO), |h| A { a: u8c(h[0]), b: None, c: kani::any() });
+// @harness name=rf_a_wide2_11 props=C09 kind=complete
+dec_harness!(rf_a_wide2_11, A, ref_a, WIDE2, h2(1, 1), |h| A { a: u8c(h[0]), b: Some(u16c(h[1])), c: kani::any() });
+// @harness name=rf_a_wide4_12 props=C09 kind=complete tier=thorough
+dec_harness!(rf_a_wide4_12, skip0, A => A, 40, ref_a, WIDE4, h2(1, 2), |h| A { a: u8c(h[0]), b: Some(u16c(h[1])), c: kani::any() }, |v| v);
+// @harness name=rf_mp_indef_11n props=C09 kind=complete
+dec_harness!(rf_mp_indef_11n, MP, ref_mp, INDEF, h3(1, 1, AUTO), |h| MP { a: u8c(h[0]), b: Some(u16c(h[1])), c: None });
+// @harness name=rf_mp_wide1_000 props=C09 kind=complete
+dec_harness!(rf_mp_wide1_000, skip0, MP => MP, 32, ref_mp, WIDE1, h3(0, 0, 0), |h| MP { a: u8c(h[0]), b: Some(u16c(h[1])), c: Some(i8c(h[2])) }, |v| v);
+// @harness name=rf_e_v1_indef props=C09 kind=complete
+dec_harness!(rf_e_v1_indef, E, ref_e, INDEF, h2(1, 1), |h| E::V1(u8c(h[0]), Some(u8c(h[1]))));
+// @harness name=rf_e_v0_indef props=C09 kind=complete note="the unit variant's (empty, indefinite) body is skipped"
+dec_harness!(rf_e_v0_indef, skip1, E => E, 24, ref_e, WIDE1, NOH, |h| E::V0, |v| v);
+// @harness name=rf_em_v1_indef props=C09 kind=complete
+dec_harness!(rf_em_v1_indef, EM, ref_em, INDEF, h1(1), |h| EM::V1 { a: u8c(h[0]), b: kani::any() });
+// @harness name=rf_tg_wide1_0 props=C09 kind=complete
+dec_harness!(rf_tg_wide1_0, TG, ref_tg, WIDE1, h1(0), |h| TG { a: u8c(h[0]), b: kani::any() });
+// @harness name=rf_io_wide2 props=C09 kind=complete
+dec_harness!(rf_io_wide2, IO, ref_io, WIDE2, NOH, |h| IO::I1);
+// @harness name=rf_by_wide1_0 props=C09 kind=complete
+dec_harness!(rf_by_wide1_0, BY, ref_by, WIDE1, h1(0), |h| BY { a: u8c(h[0]), b: kani::any() });
+
+// ---------------------------------------------------------------------------------------------------------------------
+// C09, errors: wrong / missing tag, missing mandatory field, unknown top-level variant are errors of the right class
+// ---------------------------------------------------------------------------------------------------------------------
+
+#[cfg(kani)] fn bb(x: bool) -> u8 { if x { 0xf5 } else { 0xf4 } }
+#[cfg(kani)] fn not7() -> u8 { let t: u8 = kani::any(); kani::assume(t < 24 && t != 7); t }
+#[cfg(kani)] fn ge24() -> u8 { let t: u8 = kani::any(); kani::assume(t >= 24); t }
+
+// @harness name=err_tg_wrong_struct_tag props=C09 kind=complete
+err_harness!(err_tg_wrong_struct_tag, TG, 9, [0xd8, { let t: u8 = kani::any(); kani::assume(t != 7); t }, 0x82, 0xd9, 0x01, 0x2c, 0x18, kani::any(), bb(kani::any())], |e| e.is_tag_mismatch());
+// @harness name=err_tg_wrong_field_tag props=C09 kind=complete
+err_harness!(err_tg_wrong_field_tag, TG, 8, [0xc7, 0x82, 0xd9, 0x01, { let t: u8 = kani::any(); kani::assume(t != 0x2c); t }, 0x18, kani::any(), bb(kani::any())], |e| e.is_tag_mismatch());
+// @harness name=err_tg_missing_field_tag props=C09 kind=complete
+err_harness!(err_tg_missing_field_tag, TG, 5, [0xc7, 0x82, 0x18, kani::any(), bb(kani::any())], |e| e.is_type_mismatch());
+// @harness name=err_a_missing_all props=C09,C10 kind=complete
+err_harness!(err_a_missing_all, A, 1, [0x80], |e| e.is_missing_value());
+// @harness name=err_a_missing_last props=C09,C10 kind=complete
+err_harness!(err_a_missing_last, A, 5, [0x83, 0x18, kani::any(), 0xf6, 0xf6], |e| e.is_missing_value());
+// @harness name=err_mp_missing_first props=C09,C10 kind=complete
+err_harness!(err_mp_missing_first, MP, 4, [0xa1, 0x02, 0x18, kani::any()], |e| e.is_missing_value());
+// @harness name=err_e_unknown_variant_2 props=C09 kind=complete
+err_harness!(err_e_unknown_variant_2, E, 3, [0x82, 0x02, 0x80], |e| e.is_unknown_variant());
+// @harness name=err_e_unknown_variant_ge24 props=C09 kind=complete tier=thorough
+err_harness!(err_e_unknown_variant_ge24, E, 4, [0x82, 0x18, ge24(), 0x80], |e| e.is_unknown_variant());
+// @harness name=err_io_unknown_variant props=C09 kind=complete
+err_harness!(err_io_unknown_variant, IO, 2, [0x18, { let t = ge24(); kani::assume(t != 30); t }], |e| e.is_unknown_variant());
+
+// ---------------------------------------------------------------------------------------------------------------------
+// C10: pairs (writer version, reader version) related by documented-compatible edits
+// ---------------------------------------------------------------------------------------------------------------------
+
+family! {
+    // A without the optional field at gap index 2 (older), and with one more optional field at a new index (newer)
+    pub struct A0 { #[n(0)] a: u8, #[n(3)] c: bool }
+    pub struct A2 { #[n(0)] a: u8, #[n(2)] b: Option<u16>, #[n(3)] c: bool, #[n(4)] d: Option<u8> }
+    // the same for map encoding
+    #[cbor(map)] pub struct MP0 { #[n(0)] a: u8, #[n(5)] c: Option<i8> }
+    #[cbor(map)] pub struct MP2 { #[n(0)] a: u8, #[n(2)] b: Option<u16>, #[n(5)] c: Option<i8>, #[n(7)] d: Option<u8> }
+    // an enum used as optional field, and its successor with one more variant
+    pub enum EV { #[n(0)] V0, #[n(1)] V1(#[n(0)] u8) }
+    pub enum EV2 { #[n(0)] V0, #[n(1)] V1(#[n(0)] u8), #[n(7)] V7(#[n(0)] u8) }
+    pub struct HE { #[n(0)] e: Option<EV>, #[n(1)] z: u8 }
+    pub struct HE2 { #[n(0)] e: Option<EV2>, #[n(1)] z: u8 }
+    // the same with index_only enums (D6)
+    #[cbor(index_only)] pub enum IX { #[n(0)] I0, #[n(1)] I1 }
+    #[cbor(index_only)] pub enum IX2 { #[n(0)] I0, #[n(1)] I1, #[n(7)] I7 }
+    pub struct HI { #[n(0)] e: Option<IX>, #[n(1)] z: u8 }
+    pub struct HI2 { #[n(0)] e: Option<IX2>, #[n(1)] z: u8 }
+    // unit variant turned into a struct variant with only optional fields
+    pub enum EU { #[n(0)] V0, #[n(1)] V1(#[n(0)] u8) }
+    pub enum EU2 { #[n(0)] V0 { #[n(0)] x: Option<u8> }, #[n(1)] V1(#[n(0)] u8) }
+    // tagged optional field added at a gap index (D7)
+    pub struct AT0 { #[n(0)] a: u8, #[n(2)] c: bool }
+    pub struct AT { #[n(0)] a: u8, #[cbor(n(1), tag(5))] t: Option<u8>, #[n(2)] c: bool }
+}
+
+fn ref_a0<const N: usize>(o: &mut Out<N>, v: &A0, h: &Hints, fr: Fr) {
+    o.structure(false, NOTAG, &[cls(h[0], fu(0, v.a as u64)), fb(3, v.c)], fr)
+}
+fn ref_a2<const N: usize>(o: &mut Out<N>, v: &A2, h: &Hints, fr: Fr) {
+    o.structure(false, NOTAG, &[cls(h[0], fu(0, v.a as u64)), cls(h[1], ou(2, &v.b)), fb(3, v.c), cls(h[2], ou(4, &v.d))], fr)
+}
+fn ref_mp0<const N: usize>(o: &mut Out<N>, v: &MP0, h: &Hints, fr: Fr) {
+    o.structure(true, NOTAG, &[cls(h[0], fu(0, v.a as u64)), cls(h[2], oi(5, &v.c))], fr)
+}
+fn ref_mp2<const N: usize>(o: &mut Out<N>, v: &MP2, h: &Hints, fr: Fr) {
+    o.structure(true, NOTAG, &[cls(h[0], fu(0, v.a as u64)), cls(h[1], ou(2, &v.b)), cls(h[2], oi(5, &v.c)), cls(h[3], ou(7, &v.d))], fr)
+}
+fn ref_ev2<const N: usize>(o: &mut Out<N>, v: &EV2, h: &Hints, fr: Fr) {
+    match v {
+        EV2::V0 => { o.enum_prefix(NOTAG, false, 0, fr); o.structure(false, NOTAG, &[], fr) }
+        EV2::V1(x) => { o.enum_prefix(NOTAG, false, 1, fr); o.structure(false, NOTAG, &[cls(h[0], fu(0, *x as u64))], fr) }
+        EV2::V7(x) => { o.enum_prefix(NOTAG, false, 7, fr); o.structure(false, NOTAG, &[cls(h[0], fu(0, *x as u64))], fr) }
+    }
+}
+fn ref_he2<const N: usize>(o: &mut Out<N>, v: &HE2, h: &Hints, fr: Fr) {
+    let mut inner = Out::<RAW>::new();
+    let e = match &v.e { Some(e) => { ref_ev2(&mut inner, e, h, fr); fnested(0) } None => absent(0) };
+    o.structure_n(false, NOTAG, &[e, cls(h[1], fu(1, v.z as u64))], &inner, fr)
+}
+fn ref_hi2<const N: usize>(o: &mut Out<N>, v: &HI2, h: &Hints, fr: Fr) {
+    let e = match &v.e { Some(IX2::I0) => fu(0, 0), Some(IX2::I1) => fu(0, 1), Some(IX2::I7) => fu(0, 7), None => absent(0) };
+    o.structure(false, NOTAG, &[e, cls(h[1], fu(1, v.z as u64))], fr)
+}
+fn ref_eu<const N: usize>(o: &mut Out<N>, v: &EU, h: &Hints, fr: Fr) {
+    match v {
+        EU::V0 => { o.enum_prefix(NOTAG, false, 0, fr); o.structure(false, NOTAG, &[], fr) }
+        EU::V1(x) => { o.enum_prefix(NOTAG, false, 1, fr); o.structure(false, NOTAG, &[cls(h[0], fu(0, *x as u64))], fr) }
+    }
+}
+fn ref_eu2<const N: usize>(o: &mut Out<N>, v: &EU2, h: &Hints, fr: Fr) {
+    match v {
+        EU2::V0 { x } => { o.enum_prefix(NOTAG, false, 0, fr); o.structure(false, NOTAG, &[cls(h[0], ou(0, x))], fr) }
+        EU2::V1(x) => { o.enum_prefix(NOTAG, false, 1, fr); o.structure(false, NOTAG, &[cls(h[0], fu(0, *x as u64))], fr) }
+    }
+}
+fn ref_at0<const N: usize>(o: &mut Out<N>, v: &AT0, h: &Hints, fr: Fr) {
+    o.structure(false, NOTAG, &[cls(h[0], fu(0, v.a as u64)), fb(2, v.c)], fr)
+}
+fn ref_at<const N: usize>(o: &mut Out<N>, v: &AT, h: &Hints, fr: Fr) {
+    o.structure(false, NOTAG, &[cls(h[0], fu(0, v.a as u64)), tagged(5, cls(h[1], ou(1, &v.t))), fb(2, v.c)], fr)
+}
+
+// -- optional field added / dropped at a gap index and at a new index, array encoding
+// @harness name=c10_a0_to_a_c1 props=C10 kind=complete note="older writer, newer reader: the optional field at the gap index is None"
+dec_harness!(c10_a0_to_a_c1, skip0, A0 => A, 24, ref_a0, PREF, h1(1), |h| A0 { a: u8c(h[0]), c: kani::any() }, |v| A { a: v.a, b: None, c: v.c });
+// @harness name=c10_a0_to_a_c0 props=C10 kind=complete tier=thorough
+dec_harness!(c10_a0_to_a_c0, skip0, A0 => A, 24, ref_a0, PREF, h1(0), |h| A0 { a: u8c(h[0]), c: kani::any() }, |v| A { a: v.a, b: None, c: v.c });
+// @harness name=c10_a_to_a0_some_c1 props=C10 kind=complete note="newer writer, older reader: the unknown field at the gap index is skipped whatever its content"
+dec_harness!(c10_a_to_a0_some_c1, skip0, A => A0, 24, ref_a, PREF, h2(1, 2), |h| A { a: u8c(h[0]), b: Some(u16c(h[1])), c: kani::any() }, |v| A0 { a: v.a, c: v.c });
+// @harness name=c10_a_to_a0_some_c0 props=C10 kind=complete
+dec_harness!(c10_a_to_a0_some_c0, skip0, A => A0, 24, ref_a, PREF, h2(0, 0), |h| A { a: u8c(h[0]), b: Some(u16c(h[1])), c: kani::any() }, |v| A0 { a: v.a, c: v.c });
+// @harness name=c10_a_to_a0_none props=C10 kind=complete
+dec_harness!(c10_a_to_a0_none, skip0, A => A0, 24, ref_a, PREF, h2(1, AUTO), |h| A { a: u8c(h[0]), b: None, c: kani::any() }, |v| A0 { a: v.a, c: v.c });
+// @harness name=c10_a_to_a2 props=C10 kind=complete
+dec_harness!(c10_a_to_a2, skip0, A => A2, 24, ref_a, PREF, h2(1, 1), |h| A { a: u8c(h[0]), b: Some(u16c(h[1])), c: kani::any() }, |v| A2 { a: v.a, b: v.b, c: v.c, d: None });
+// @harness name=c10_a2_to_a_some_c1 props=C10 kind=complete note="trailing unknown field skipped"
+dec_harness!(c10_a2_to_a_some_c1, skip0, A2 => A, 24, ref_a2, PREF, h3(1, 1, 1), |h| A2 { a: u8c(h[0]), b: Some(u16c(h[1])), c: kani::any(), d: Some(u8c(h[2])) }, |v| A { a: v.a, b: v.b, c: v.c });
+// @harness name=c10_a2_to_a_some_c0 props=C10 kind=complete
+dec_harness!(c10_a2_to_a_some_c0, skip0, A2 => A, 24, ref_a2, PREF, h3(1, AUTO, 0), |h| A2 { a: u8c(h[0]), b: None, c: kani::any(), d: Some(u8c(h[2])) }, |v| A { a: v.a, b: v.b, c: v.c });
+// @harness name=c10_a2_to_a0 props=C10 kind=complete note="two versions apart: one unknown field at a gap, one trailing"
+dec_harness!(c10_a2_to_a0, skip0, A2 => A0, 24, ref_a2, PREF, h3(1, 2, 1), |h| A2 { a: u8c(h[0]), b: Some(u16c(h[1])), c: kani::any(), d: Some(u8c(h[2])) }, |v| A0 { a: v.a, c: v.c });
+// -- the same, map encoding
+// @harness name=c10_mp0_to_mp props=C10 kind=complete
+dec_harness!(c10_mp0_to_mp, skip0, MP0 => MP, 24, ref_mp0, PREF, h3(1, AUTO, 1), |h| MP0 { a: u8c(h[0]), c: Some(i8c(h[2])) }, |v| MP { a: v.a, b: None, c: v.c });
+// @harness name=c10_mp_to_mp0_c1 props=C10 kind=complete tier=thorough
+dec_harness!(c10_mp_to_mp0_c1, skip0, MP => MP0, 24, ref_mp, PREF, h3(1, 2, 1), |h| MP { a: u8c(h[0]), b: Some(u16c(h[1])), c: Some(i8c(h[2])) }, |v| MP0 { a: v.a, c: v.c });
+// @harness name=c10_mp_to_mp0_c0 props=C10 kind=complete
+dec_harness!(c10_mp_to_mp0_c0, skip0, MP => MP0, 24, ref_mp, PREF, h3(1, 0, AUTO), |h| MP { a: u8c(h[0]), b: Some(u16c(h[1])), c: None }, |v| MP0 { a: v.a, c: v.c });
+// @harness name=c10_mp_to_mp2 props=C10 kind=complete
+dec_harness!(c10_mp_to_mp2, skip0, MP => MP2, 24, ref_mp, PREF, h3(1, 1, AUTO), |h| MP { a: u8c(h[0]), b: Some(u16c(h[1])), c: None }, |v| MP2 { a: v.a, b: v.b, c: v.c, d: None });
+// @harness name=c10_mp2_to_mp1 props=C10 kind=complete tier=thorough
+dec_harness!(c10_mp2_to_mp1, skip0, MP2 => MP, 24, ref_mp2, PREF, [1, AUTO, 1, 1, AUTO, AUTO, AUTO, AUTO], |h| MP2 { a: u8c(h[0]), b: None, c: Some(i8c(h[2])), d: Some(u8c(h[3])) }, |v| MP { a: v.a, b: v.b, c: v.c });
+// @harness name=c10_mp2_to_mp0 props=C10 kind=complete
+dec_harness!(c10_mp2_to_mp0, skip0, MP2 => MP0, 24, ref_mp2, PREF, [1, 2, AUTO, 1, AUTO, AUTO, AUTO, AUTO], |h| MP2 { a: u8c(h[0]), b: Some(u16c(h[1])), c: None, d: Some(u8c(h[3])) }, |v| MP0 { a: v.a, c: v.c });
+// -- a variant added to an enum that is used as an optional field
+// @harness name=c10_he2_to_he_unknown_c1 props=C10 kind=complete note="unknown variant in an optional field -> None, the sibling field is intact"
+dec_harness!(c10_he2_to_he_unknown_c1, skip1, HE2 => HE, 24, ref_he2, PREF, h2(1, 1), |h| HE2 { e: Some(EV2::V7(u8c(h[0]))), z: u8c(h[1]) }, |v| HE { e: None, z: v.z });
+// @harness name=c10_he2_to_he_unknown_c0 props=C10 kind=complete
+dec_harness!(c10_he2_to_he_unknown_c0, skip1, HE2 => HE, 24, ref_he2, PREF, h2(0, 0), |h| HE2 { e: Some(EV2::V7(u8c(h[0]))), z: u8c(h[1]) }, |v| HE { e: None, z: v.z });
+// @harness name=c10_he2_to_he_known props=C10 kind=complete
+dec_harness!(c10_he2_to_he_known, skip1, HE2 => HE, 24, ref_he2, PREF, h2(1, 1), |h| HE2 { e: Some(EV2::V1(u8c(h[0]))), z: u8c(h[1]) }, |v| HE { e: Some(EV::V1(match v.e { Some(EV2::V1(x)) => x, _ => 0 })), z: v.z });
+// @harness name=c10_he2_to_he_none props=C10 kind=complete
+dec_harness!(c10_he2_to_he_none, skip1, HE2 => HE, 24, ref_he2, PREF, h2(AUTO, 1), |h| HE2 { e: None, z: u8c(h[1]) }, |v| HE { e: None, z: v.z });
+// -- the same with index_only enums
+// @harness name=c10_hi2_to_hi_known props=C10 kind=complete
+dec_harness!(c10_hi2_to_hi_known, skip0, HI2 => HI, 24, ref_hi2, PREF, h2(AUTO, 1), |h| HI2 { e: Some(IX2::I1), z: u8c(h[1]) }, |v| HI { e: Some(IX::I1), z: v.z });
+// @harness name=kf_d6_index_only_unknown props=C10 kind=complete note="D6: HI2 { e: Some(I7), z } = 82 07 z read as HI: the unknown index is followed by skip(), which consumes z"
+dec_harness!(kf_d6_index_only_unknown, skip0, HI2 => HI, 24, ref_hi2, PREF, h2(AUTO, 1), |h| HI2 { e: Some(IX2::I7), z: u8c(h[1]) }, |v| HI { e: None, z: v.z });
+// -- unit variant -> struct variant with only optional fields
+// @harness name=c10_eu_to_eu2 props=C10 kind=complete
+dec_harness!(c10_eu_to_eu2, skip1, EU => EU2, 24, ref_eu, PREF, NOH, |h| EU::V0, |v| EU2::V0 { x: None });
+// @harness name=c10_eu2_to_eu_some_c1 props=C10 kind=complete note="the older reader skips the body of what it knows as a unit variant"
+dec_harness!(c10_eu2_to_eu_some_c1, skip1, EU2 => EU, 24, ref_eu2, PREF, h1(1), |h| EU2::V0 { x: Some(u8c(h[0])) }, |v| EU::V0);
+// @harness name=c10_eu2_to_eu_some_c0 props=C10 kind=complete
+dec_harness!(c10_eu2_to_eu_some_c0, skip1, EU2 => EU, 24, ref_eu2, PREF, h1(0), |h| EU2::V0 { x: Some(u8c(h[0])) }, |v| EU::V0);
+// @harness name=c10_eu2_to_eu_none props=C10 kind=complete
+dec_harness!(c10_eu2_to_eu_none, skip1, EU2 => EU, 24, ref_eu2, PREF, NOH, |h| EU2::V0 { x: None }, |v| EU::V0);
+// -- tagged optional field added at a gap index
+// @harness name=c10_at_to_at0 props=C10 kind=complete note="older reader skips the tagged item"
+dec_harness!(c10_at_to_at0, skip1, AT => AT0, 24, ref_at, PREF, h2(1, 1), |h| AT { a: u8c(h[0]), t: Some(u8c(h[1])), c: kani::any() }, |v| AT0 { a: v.a, c: v.c });
+// @harness name=c10_at_self props=C09 kind=complete
+dec_harness!(c10_at_self, skip1, AT => AT, 24, ref_at, PREF, h2(1, AUTO), |h| AT { a: u8c(h[0]), t: None, c: kani::any() }, |v| v);
+// @harness name=kf_d7_tagged_optional_gap props=C10 kind=complete note="D7: AT0 { a, c } = 83 a f6 c read as AT: the null at the gap index is rejected because the tag is demanded first"
+dec_harness!(kf_d7_tagged_optional_gap, skip1, AT0 => AT, 24, ref_at0, PREF, h1(1), |h| AT0 { a: u8c(h[0]), c: kani::any() }, |v| AT { a: v.a, t: None, c: v.c });
+
+/// a sink storing by plain indexed stores
+pub struct Store<const N: usize> { pub b: [u8; N], pub n: usize }
+impl<const N: usize> minicbor::encode::Write for Store<N> {
+    type Error = core::convert::Infallible;
+    fn write_all(&mut self, buf: &[u8]) -> Result<(), Self::Error> {
+        let mut i = 0;
+        while i < buf.len() { self.b[self.n] = buf[i]; self.n += 1; i += 1 }
+        Ok(())
+    }
+}
+// @harness name=enc_m24_bytes props=C08 kind=complete note="24-field map, bytes only (through an index-store sink instead of Cursor)"
+#[cfg(kani)]
+#[kani::proof]
+fn enc_m24_bytes() {
+    let v: M24 = kani::any();
+    let mut e = Encoder::new(Store::<56> { b: kani::any(), n: 0 });
+    let ok = v.encode(&mut e, &mut ()).is_ok();
+    chk!(ok, "encoding succeeds");
+    let got = e.into_writer();
+    let mut want = Out::<64>::new();
+    ref_m24(&mut want, &v, &NOH, PREF);
+    chk!(got.n == want.n, "C08: number of bytes");
+    let mut i = 0;
+    while i < 56 { if i < got.n { chk!(got.b[i] == want.b[i], "C08: bytes equal the documented format") } i += 1 }
+    kani::cover!(v.f22.is_none() && v.f24.is_some());
+}
